@@ -83,6 +83,8 @@ func init() {
 				}
 			}
 			js = append(js, sites(withSumHash(job(pkgCore, "HarnessC06", 2, 2, 1, 0)), ms...), sites(withSumHash(job(pkgCore, "HarnessC06", 2, 2, 2, 2)), ms...))
+			// the request object comes recycled from the pool after a wider request; and a 5-key list
+			js = append(js, sites(withSumHash(job(pkgCore, "HarnessC06Warm", 0, 3, 1, 0)), ms...), sites(withSumHash(job(pkgCore, "HarnessC06Warm", 1, 3, 1, 0)), ms...), sites(withSumHash(job(pkgCore, "HarnessC06Warm", 2, 2, 1, 1)), ms...), sites(withSumHash(job(pkgCore, "HarnessC06", 0, 5, 1, 0)), ms...))
 			// the real CRC/hash-tag code instead of its specification
 			js = append(js, sites(job(pkgCore, "HarnessC06", 0, 2, 1, 0), ms...), sites(job(pkgCore, "HarnessC06", 0, 2, 3, 0), ms...), sites(job(pkgCore, "HarnessC06", 2, 2, 1, 1), ms...), sites(job(pkgCore, "HarnessC06", 1, 3, 1, 0), ms...))
 			if tier == "thorough" {
@@ -120,11 +122,11 @@ func init() {
 			for cut := int64(1); cut < cutL; cut++ {
 				js = append(js, job(pkgServer, "HarnessC12", cutL, cut))
 			}
-			js = append(js, job(pkgServer, "HarnessC12Shape", 1, 1, 1, 0), job(pkgServer, "HarnessC12Shape", 2, 2, 2, 0), job(pkgServer, "HarnessC12Shape", 2, 1, 1, 0), job(pkgServer, "HarnessC12Shape", 1, 2, 2, 0))
-			// lengths that only exist with 19 or 20 digits: values next to 2^63 and values that wrap around 2^64
-			js = append(js, job(pkgServer, "HarnessC12Shape", 1, 1, 19, 0), job(pkgServer, "HarnessC12Shape", 1, 1, 20, 0))
+			js = append(js, job(pkgServer, "HarnessC12Shape", 1, 1, 1, 0, 1), job(pkgServer, "HarnessC12Shape", 2, 1, 1, 0, 1), job(pkgServer, "HarnessC12Shape", 1, 1, 2, 0, 0), job(pkgServer, "HarnessC12Shape", 1, 1, 2, 0, 2))
+			// lengths that only exist with 10..20 digits: above 512 MB, next to 2^63, wrapping around 2^64
+			js = append(js, job(pkgServer, "HarnessC12Len", 10, 1), job(pkgServer, "HarnessC12Len", 19, 1), job(pkgServer, "HarnessC12Len", 20, 5))
 			if tier == "thorough" {
-				js = append(js, job(pkgServer, "HarnessC12Shape", 3, 2, 2, 0), job(pkgServer, "HarnessC12Shape", 1, 3, 3, 0), job(pkgServer, "HarnessC12Shape", 2, 2, 2, 9), job(pkgServer, "HarnessC12Shape", 1, 1, 1, 13), job(pkgServer, "HarnessC12Shape", 1, 19, 1, 0), job(pkgServer, "HarnessC12Shape", 19, 1, 1, 0))
+				js = append(js, job(pkgServer, "HarnessC12Shape", 2, 2, 2, 0, 1), job(pkgServer, "HarnessC12Shape", 3, 1, 1, 0, 1), job(pkgServer, "HarnessC12Shape", 1, 3, 3, 0, 0), job(pkgServer, "HarnessC12Shape", 2, 2, 2, 9, 1), job(pkgServer, "HarnessC12Shape", 1, 1, 1, 13, 1), job(pkgServer, "HarnessC12Len", 20, 1), job(pkgServer, "HarnessC12Len", 18, 3))
 			}
 			return js
 		},
@@ -178,17 +180,46 @@ const (
 	pkgAuthip  = "rcproxy/core/authip"
 )
 
+// fault bits of HarnessWorld
+const (
+	fHangup  = 1
+	fUnowned = 2
+	fDial    = 4
+	fLoss    = 8
+	fTimeout = 16
+	fBackErr = 64
+	fSplit   = 128
+	fWide    = 256
+	fProbe   = 512
+)
+
+// request kinds of HarnessWorld
+const (
+	kG = 1 // GET
+	kS = 2 // SET
+	kM = 4 // two-key MGET
+	kP = 8 // PING
+	kU = 16
+	kA = 32
+	kQ = 64
+)
+
 func world(prop, m1, m2, steps, kinds, faults int64) *JobCfg {
 	j := job(pkgServer, "HarnessWorld", prop, m1, m2, steps, kinds, faults)
-	j.MapOrderSites = []string{"OnCReact", "CRespCodec).MGet"}
+	j.MapOrderOff = true
 	return j
 }
 
-func pipe(prop, m, steps, kinds int64) *JobCfg {
-	j := job(pkgServer, "HarnessPipe", prop, m, steps, kinds)
-	j.MapOrderSites = []string{"OnCReact", "CRespCodec).MGet"}
+// worldO additionally explores the iteration order of the per-slot map in OnCReact (which fragment of
+// a split request is queued first)
+func worldO(prop, m1, m2, steps, kinds, faults int64) *JobCfg {
+	j := job(pkgServer, "HarnessWorld", prop, m1, m2, steps, kinds, faults)
+	j.MapOrderSites = []string{"OnCReact"}
+	j.Name += "/order"
 	return j
 }
+
+func pipe(prop, m, steps, kinds int64) *JobCfg { return world(prop, m, 0, steps, kinds, 0) }
 
 const worldAssume = "event schedules are sequences of: a client read, a poller task drain (at most two other events may precede a pending drain, as with one epoll batch), a backend reply read, and the enabled faults; backends answer the oldest request received on that connection with an echo of its keys; map iteration order explored in OnCReact and CRespCodec.MGet"
 
@@ -197,9 +228,9 @@ func init() {
 	register(&CheckSpec{ID: "C01", Patterns: []string{pkgServer},
 		Jobs: func(tier string) []*JobCfg {
 			if tier == "thorough" {
-				return []*JobCfg{pipe(1, 1, 6, allKinds), pipe(1, 2, 9, allKinds), pipe(1, 3, 9, 1|4|8|16|64), world(1, 1, 1, 8, 1|4|8, 0), world(1, 2, 1, 8, 1|8, 0)}
+				return []*JobCfg{pipe(1, 1, 6, allKinds), pipe(1, 2, 10, allKinds), pipe(1, 3, 9, kG|kM|kP|kU|kQ), world(1, 2, 0, 9, kG|kM, fBackErr), world(1, 2, 0, 9, kG|kM|kP, fSplit), world(1, 1, 1, 8, kG|kM|kP, 0), worldO(1, 2, 0, 8, kM|kP, 0), world(1, 2, 0, 8, allKinds, fWide)}
 			}
-			return []*JobCfg{pipe(1, 1, 6, allKinds), pipe(1, 2, 8, allKinds), pipe(1, 3, 6, 1|8|64)}
+			return []*JobCfg{pipe(1, 1, 6, allKinds), pipe(1, 2, 8, allKinds), world(1, 2, 0, 7, kG|kM, fBackErr), world(1, 2, 0, 7, kG|kP, fSplit), pipe(1, 3, 6, kG|kP|kQ)}
 		},
 		Bounds: func(tier string) string {
 			return "pipelines of 1..3 requests, each of a solver-chosen kind (GET, SET, two-key MGET over one or two nodes, PING, unknown command, wrong arity, QUIT last) with solver-chosen key bytes/owner, every schedule of up to 8 (quick) / 9 (thorough) events; thorough adds a second concurrent client"
@@ -209,9 +240,9 @@ func init() {
 	register(&CheckSpec{ID: "C09", Patterns: []string{pkgServer},
 		Jobs: func(tier string) []*JobCfg {
 			if tier == "thorough" {
-				return []*JobCfg{pipe(9, 2, 9, allKinds), pipe(9, 3, 9, 1|4|8), world(9, 2, 1, 8, 1|4, 0)}
+				return []*JobCfg{pipe(9, 2, 10, allKinds), pipe(9, 3, 9, kG|kM|kP), world(9, 3, 0, 9, kG|kM, fSplit), world(9, 2, 1, 8, kG|kM, 0), world(9, 2, 0, 8, kG|kM, fSplit|fBackErr)}
 			}
-			return []*JobCfg{pipe(9, 2, 8, allKinds), pipe(9, 3, 7, 1|8)}
+			return []*JobCfg{pipe(9, 2, 8, allKinds), world(9, 2, 0, 7, kG|kM, fSplit), world(9, 3, 0, 7, kG, fSplit)}
 		},
 		Bounds: func(tier string) string {
 			return "liveness reduced to a one-step progress obligation: after EVERY backend-reply event in every schedule (2..3 requests, <= 8/9 events) no completed request is left at the head of the client's queue, i.e. the longest completed prefix has been written"
@@ -221,9 +252,9 @@ func init() {
 	register(&CheckSpec{ID: "C10", Patterns: []string{pkgServer},
 		Jobs: func(tier string) []*JobCfg {
 			if tier == "thorough" {
-				return []*JobCfg{pipe(10, 2, 8, 7), pipe(10, 3, 8, 3), world(10, 2, 1, 8, 3, 0), world(10, 1, 1, 8, 7, 0)}
+				return []*JobCfg{pipe(10, 3, 10, kG|kS|kM), world(10, 2, 1, 8, kG|kS, 0), worldO(10, 2, 0, 9, kM|kS|kG, 0), world(10, 3, 0, 9, kG|kS, fWide), world(10, 2, 0, 8, kG|kS, fSplit)}
 			}
-			return []*JobCfg{pipe(10, 2, 7, 7), world(10, 1, 1, 6, 3, 0)}
+			return []*JobCfg{pipe(10, 2, 8, kG|kS|kM), pipe(10, 3, 8, kG|kS), world(10, 1, 1, 7, kG|kS, 0), worldO(10, 2, 0, 7, kM|kS, 0)}
 		},
 		Bounds: func(tier string) string {
 			return "1..2 clients, 2..3 forwarded requests (GET/SET/MGET) with solver-chosen owners, every schedule up to 7/8 events; per backend connection the order of each client's requests is compared with that client's send order"
@@ -233,9 +264,9 @@ func init() {
 	register(&CheckSpec{ID: "C03", Patterns: []string{pkgServer},
 		Jobs: func(tier string) []*JobCfg {
 			if tier == "thorough" {
-				return []*JobCfg{world(3, 1, 1, 8, 5, 2), world(3, 1, 1, 8, 5, 1), world(3, 1, 1, 8, 5, 4), world(3, 2, 1, 7, 4, 2), world(3, 1, 1, 7, 5, 8), world(3, 1, 1, 6, 5, 16)}
+				return []*JobCfg{world(3, 1, 1, 9, kG|kM, fUnowned), world(3, 2, 1, 8, kG|kM, fUnowned), world(3, 1, 1, 8, kG|kM, fHangup), world(3, 1, 1, 8, kG|kM, fDial), world(3, 1, 1, 8, kG|kM, fBackErr), world(3, 1, 1, 7, kG|kM, fLoss), world(3, 1, 1, 7, kG|kM, fTimeout), worldO(3, 1, 1, 7, kM, fUnowned)}
 			}
-			return []*JobCfg{world(3, 1, 1, 6, 5, 2), world(3, 1, 1, 6, 5, 1), world(3, 1, 1, 6, 4, 4)}
+			return []*JobCfg{world(3, 1, 1, 7, kG|kM, fUnowned), world(3, 1, 1, 6, kG|kM, fHangup), world(3, 1, 1, 6, kM, fDial), world(3, 1, 1, 6, kG|kM, fBackErr)}
 		},
 		Bounds: func(tier string) string {
 			return "two clients with 1..2 requests each (GET / two-key MGET, solver-chosen owners and key bytes), every schedule up to 6 (quick) / 8 (thorough) events, with one of: node B's slots unowned, a client disconnecting mid-flight, dialling node B failing; thorough adds backend loss and timeouts"
@@ -245,9 +276,9 @@ func init() {
 	register(&CheckSpec{ID: "C15", Patterns: []string{pkgServer},
 		Jobs: func(tier string) []*JobCfg {
 			if tier == "thorough" {
-				return []*JobCfg{world(15, 2, 0, 8, 5, 8), world(15, 1, 1, 7, 5, 8), world(15, 2, 0, 7, 5, 4), job(pkgServer, "HarnessC13", 0), job(pkgServer, "HarnessC13", 1)}
+				return []*JobCfg{world(15, 2, 0, 8, kG|kM, fLoss), world(15, 2, 0, 7, kG|kM, fLoss|fProbe), world(15, 1, 1, 7, kG|kM, fLoss), world(15, 2, 0, 8, kG|kM, fDial), world(15, 2, 0, 7, kG|kM, fLoss|fSplit), job(pkgServer, "HarnessC13", 0), job(pkgServer, "HarnessC13", 1)}
 			}
-			return []*JobCfg{world(15, 2, 0, 6, 5, 8), world(15, 2, 0, 6, 5, 4), job(pkgServer, "HarnessC13", 0)}
+			return []*JobCfg{world(15, 2, 0, 6, kG|kM, fLoss), world(15, 1, 0, 6, kG, fLoss|fProbe), world(15, 2, 0, 6, kG|kM, fDial), job(pkgServer, "HarnessC13", 0)}
 		},
 		Bounds: func(tier string) string {
 			return "pipelines of 2 requests (GET / two-key MGET), a backend connection lost at ANY point of every schedule up to 6/8 events (before the request is written, after it, after other replies), or dialling a node failing, or a redirect naming an unknown node; at quiescence every request is answered or its client closed"
@@ -257,9 +288,9 @@ func init() {
 	register(&CheckSpec{ID: "C16", Patterns: []string{pkgServer},
 		Jobs: func(tier string) []*JobCfg {
 			if tier == "thorough" {
-				return []*JobCfg{world(16, 2, 0, 8, 5, 16), world(16, 3, 0, 7, 1, 16), world(16, 1, 1, 7, 5, 16)}
+				return []*JobCfg{world(16, 2, 0, 9, kG|kM, fTimeout), world(16, 3, 0, 8, kG, fTimeout), world(16, 1, 1, 8, kG|kM, fTimeout), world(16, 2, 0, 8, kG|kM, fTimeout|fSplit)}
 			}
-			return []*JobCfg{world(16, 2, 0, 6, 5, 16), world(16, 2, 0, 7, 1, 16)}
+			return []*JobCfg{world(16, 2, 0, 7, kG|kM, fTimeout), world(16, 3, 0, 6, kG, fTimeout)}
 		},
 		Bounds: func(tier string) string {
 			return "pipelines of 2..3 requests (GET / two-key MGET), timeout 50 ms of model time, time passes beyond the timeout at ANY single point of every schedule up to 6/8 events, backends may answer before, after or never; at quiescence every request has exactly one reply, in order, the connection is open"
@@ -277,14 +308,15 @@ func init() {
 		Outside: []string{"chains of redirects, redirects arriving while the target connection is being dialled unsuccessfully"}})
 	register(&CheckSpec{ID: "C04", Patterns: []string{pkgServer},
 		Jobs: func(tier string) []*JobCfg {
-			js := []*JobCfg{job(pkgServer, "HarnessC04", 1, 0, 0), job(pkgServer, "HarnessC04", 0, 0, 1), job(pkgServer, "HarnessC04", 1, 1, 0)}
+			js := []*JobCfg{job(pkgServer, "HarnessC04", 1, 0, 0), job(pkgServer, "HarnessC04", 0, 0, 1), job(pkgServer, "HarnessC04", 1, 1, 0),
+				noMapOrder(job(pkgServer, "HarnessC04Seq", 2, 0)), noMapOrder(job(pkgServer, "HarnessC04Seq", 2, 1))}
 			if tier == "thorough" {
-				js = append(js, job(pkgServer, "HarnessC04", 2, 0, 1), job(pkgServer, "HarnessC04", 2, 1, 1), job(pkgServer, "HarnessC04", 0, 0, 0))
+				js = append(js, job(pkgServer, "HarnessC04", 2, 0, 1), job(pkgServer, "HarnessC04", 2, 1, 1), job(pkgServer, "HarnessC04", 0, 0, 0), noMapOrder(job(pkgServer, "HarnessC04Seq", 3, 0)))
 			}
 			return js
 		},
 		Bounds: func(tier string) string {
-			return "every forwarded single-key command of the documented table, key = 2 arbitrary bytes (slot = real CRC16 of arbitrary data), three replica sets over [0,99] [200,8191] [8192,16383] with an unowned gap, 0..2 replicas each, replica reads on/off, backend password on/off"
+			return "every forwarded single-key command of the documented table, key = 2 arbitrary bytes (slot = real CRC16 of arbitrary data), three replica sets over [0,99] [200,8191] [8192,16383] with an unowned gap, 0..2 replicas each, replica reads on/off, backend password on/off; sequences of 2 (thorough 3) requests of {get,set,hscan,eval} with arbitrary one-byte hash tags against replica sets with 0, 1 and 2 replicas (state carried from one routing decision to the next)"
 		},
 		Assumptions: []string{"read-only command list taken from the Redis command reference; scans and scripts must go to the master"}, Stubs: []string{stubWorld, "math/rand.Intn = arbitrary value in range"},
 		Outside: []string{"other range layouts, more than three replica sets, multi-key commands (their fragments are routed by the same code per slot)"}})
@@ -299,9 +331,12 @@ func init() {
 		Outside: []string{"statistical quality of math/rand, the ban-timer arithmetic"}})
 	register(&CheckSpec{ID: "C07", Patterns: []string{pkgServer},
 		Jobs: func(tier string) []*JobCfg {
-			js := []*JobCfg{job(pkgServer, "HarnessC07", 0, 2, 0), job(pkgServer, "HarnessC07", 1, 2, 0), job(pkgServer, "HarnessC07", 2, 2, 0), job(pkgServer, "HarnessC07", 1, 3, 0)}
+			js := []*JobCfg{job(pkgServer, "HarnessC07", 0, 2, 0), job(pkgServer, "HarnessC07", 1, 2, 0), job(pkgServer, "HarnessC07", 2, 2, 0), job(pkgServer, "HarnessC07", 1, 3, 0), job(pkgServer, "HarnessC07", 0, 3, 2)}
 			if tier == "thorough" {
-				js = append(js, job(pkgServer, "HarnessC07", 0, 3, 0), job(pkgServer, "HarnessC07", 2, 3, 0))
+				js = append(js, job(pkgServer, "HarnessC07", 0, 3, 0), job(pkgServer, "HarnessC07", 2, 3, 0), job(pkgServer, "HarnessC07", 0, 4, 2))
+			}
+			for _, j := range js {
+				j.MapOrderSites = []string{"OnCReact", "SRespCodec).MSet"}
 			}
 			return js
 		},
@@ -318,12 +353,15 @@ func init() {
 			} else {
 				js = append(js, job(pkgServer, "HarnessC07", 0, 1, 1))
 			}
+			for _, j := range js {
+				j.MapOrderSites = []string{"OnCReact"}
+			}
 			return js
 		},
 		Bounds: func(tier string) string {
-			return "error replies '-XYZ x' with EVERY three-capital-letter code other than the ones the proxy acts on, on any subset of the fragments of a 1..3-key MGET/DEL/MSET in both arrival orders and split reads; single-key GET answered with such an error"
+			return "error replies '-' + EVERY 8 printable bytes (so -LOADING, -WRONGTYP, -TRYAGAIN, -READONLY, -CROSSSLO, -CLUSTERD, -ERR ... are included) other than the ones the proxy acts on, on any subset of the fragments of a 1..3-key MGET/DEL/MSET in both arrival orders and split reads; single-key GET answered with such an error"
 		},
-		Assumptions: []string{"error text after the code is fixed; codes are three capital letters"}, Stubs: []string{stubWorld},
+		Assumptions: []string{"the first 8 bytes of the error line are arbitrary printable bytes, the rest is fixed"}, Stubs: []string{stubWorld},
 		Outside: []string{"replies of the wrong shape that a Redis node cannot produce (e.g. a status reply to MGET)"}})
 	register(&CheckSpec{ID: "C08", Patterns: []string{pkgCore},
 		Jobs: func(tier string) []*JobCfg {
@@ -357,6 +395,7 @@ func init() {
 				js = append(js, job(pkgServer, "HarnessC02Rsp", shape, 0, 0))
 			}
 			js = append(js, job(pkgServer, "HarnessC02Rsp", 3, 1, 0), job(pkgServer, "HarnessC02Rsp", 7, 2, 0), job(pkgServer, "HarnessC02Rsp", 8, 0, 3), job(pkgServer, "HarnessC02Rsp", 3, 0, 1))
+			js = append(js, job(pkgServer, "HarnessC02Slow", 4), job(pkgServer, "HarnessC02Slow", 8))
 			if tier == "thorough" {
 				for shape := int64(0); shape <= 9; shape++ {
 					js = append(js, job(pkgServer, "HarnessC02Rsp", shape, 1, 2))
@@ -433,10 +472,14 @@ func init() {
 		Outside:     []string{"contents of rings larger than 8 bytes (only grow() is run at 1-8 KiB), ReadFrom/WriteTo/CopyFromSocket (unused by the proxy)"}})
 	register(&CheckSpec{ID: "C14", Patterns: []string{pkgCore}, AllowBlocked: true,
 		Jobs: func(tier string) []*JobCfg {
-			return []*JobCfg{noMapOrder(job(pkgCore, "HarnessC14Loop")), noMapOrder(job(pkgCore, "HarnessC14Parse")), noMapOrder(job(pkgCore, "HarnessC14Ticker"))}
+			js := []*JobCfg{noMapOrder(job(pkgCore, "HarnessC14Loop")), noMapOrder(job(pkgCore, "HarnessC14Parse")), noMapOrder(job(pkgCore, "HarnessC14Ticker")), noMapOrder(job(pkgCore, "HarnessC14History", 5, 3))}
+			if tier == "thorough" {
+				js = append(js, noMapOrder(job(pkgCore, "HarnessC14History", 5, 4)), noMapOrder(job(pkgCore, "HarnessC14History", 6, 3)))
+			}
+			return js
 		},
 		Bounds: func(tier string) string {
-			return "(a) refresh loop: one unusable probe reply of 6 classes (status, nil, error with arbitrary code, too few nodes, arbitrary 4-byte text, arbitrary 2-byte status) followed by a valid one; (b) node filter: role x every subset/placement of {myself, fail?, fail, handshake, noaddr} x link state x INFO loading/master_link answers; (c) slot table rebuild with the last range end in {16383, 16000, 16384, 20000, 5460} and an arbitrary probe slot"
+			return "(a) refresh loop: one unusable probe reply of 6 classes (status, nil, error with arbitrary code, too few nodes, arbitrary 4-byte text, arbitrary 2-byte status) followed by a valid one; (b) node filter: role x every subset/placement of {myself, fail?, fail, handshake, noaddr} x link state x INFO loading/master_link answers; (c) slot table rebuild with the last range end in {16383, 16000, 16384, 20000, 5460} and an arbitrary probe slot; (d) every history of 5 (thorough 6) successive valid replies chosen among steady state / fail-over / fail-back as replica / resharding, with a ticker run after each: table, replica sets and pools describe the latest reply"
 		},
 		Assumptions: []string{"INFO answers come from a fake RedisWrapper; cornelk/hashmap is modelled as an ideal map; the refresh goroutine body is run to its next blocking receive", "map iteration order not explored here"},
 		Stubs:       []string{stubWorld, "hashmap.HashMap = ideal map", "context.WithCancel = no-op"},
